@@ -103,3 +103,143 @@ Section Kin.
     rewrite (proj2 (ukc_q_spec M w1 q W L1) i Hi), (proj2 (ukc_q_spec M w2 q W L2) i Hi). reflexivity.
   Qed.
 End Kin.
+
+(* ---- velocity pass ---- *)
+Section Vel.
+  Context {T : Type} (O : Ops T) {FL : FieldLaws O}.
+  Local Notation Model := (@Model T). Local Notation WS := (@WS T).
+  Local Notation t0 := (o0 O).
+
+  (* body-coordinate spatial velocity as a pure function: v_i = X_lambda_i v_parent + S_i qd_i *)
+  Fixpoint vFf (M : Model) (q qd : list T) (fuel i : nat) : SV T :=
+    match fuel with
+    | 0 => svzero O
+    | S f => if Nat.eqb (getlam M i) 0 then vJF O M q qd i
+             else svadd O (st_apply O (XlF O M q i) (vFf M q qd f (getlam M i))) (vJF O M q qd i)
+    end.
+  Definition vF (M : Model) q qd i := vFf M q qd i i.
+
+  Lemma vFf_fuel (M : Model) q qd : WF M -> forall f f' i, i < nbodies M -> i <= f -> i <= f' -> 0 < i ->
+    vFf M q qd f i = vFf M q qd f' i.
+  Proof.
+    intros W. induction f as [|f IH]; intros f' i Hn Hf Hf' Hi; [lia|].
+    destruct f' as [|f']; [lia|]. cbn.
+    destruct (Nat.eqb (getlam M i) 0) eqn:E; [reflexivity|].
+    apply Nat.eqb_neq in E. pose proof (wf_parent M W i (conj Hi Hn)) as Hl. unfold getlam in *.
+    f_equal. f_equal. apply IH; lia.
+  Qed.
+  Lemma vF_unfold (M : Model) q qd i : WF M -> 0 < i < nbodies M ->
+    vF M q qd i = if Nat.eqb (getlam M i) 0 then vJF O M q qd i
+                  else svadd O (st_apply O (XlF O M q i) (vF M q qd (getlam M i))) (vJF O M q qd i).
+  Proof.
+    intros W [Hi Hn]. unfold vF. destruct i; [lia|]. cbn [vFf].
+    destruct (Nat.eqb (getlam M (S i)) 0) eqn:E; [reflexivity|]. apply Nat.eqb_neq in E.
+    pose proof (wf_parent M W (S i) (conj Hi Hn)) as Hl. unfold getlam in *.
+    f_equal. f_equal. apply vFf_fuel; auto; lia.
+  Qed.
+
+  Definition ukc_qd_step (M : Model) (q qd : list T) (w : WS) (i : nat) : WS :=
+    let lam := getlam M i in
+    let w := jcalc O M w i q qd in
+    let w := w_v w (upd (wv w) i (if Nat.eqb lam 0 then gvJ O w i
+                                  else svadd O (st_apply O (gXl O w i) (gv O w lam)) (gvJ O w i))) in
+    w_c w (upd (wc w) i (svadd O (gcJ O w i) (crossm O (gv O w i) (gvJ O w i)))).
+  Lemma ukc_qd_is_fold M w q qd : ukc_qd O M w q qd = fold_left (ukc_qd_step M q qd) (body_range M) w.
+  Proof. reflexivity. Qed.
+
+  (* everything the construction establishes and no routine destroys *)
+  Definition Good (M : Model) (w : WS) : Prop :=
+    ws_len w (nbodies M) /\ (forall j, 0 < j < nbodies M -> WsInvJ O M w j /\ kind_dof M w j).
+
+  Definition InvV (M : Model) q qd (w0 : WS) (w : WS) (k : nat) : Prop :=
+    Good M w /\ wXb w = wXb w0 /\ forall j, 0 < j < k -> gv O w j = vF M q qd j.
+
+  Lemma ukc_qd_step_inv (M : Model) q qd w0 w i : WF M -> 0 < i < nbodies M ->
+    InvV M q qd w0 w i -> InvV M q qd w0 (ukc_qd_step M q qd w i) (S i).
+  Proof.
+    intros W [Hi Hn] ((Hlen & Hg) & HXb & Hinv). unfold ukc_qd_step.
+    set (w1 := jcalc O M w i q qd).
+    assert (Hlen1 : ws_len w1 (nbodies M)) by (apply jcalc_len; exact Hlen).
+    pose proof (jcalc_untouched O true M w i q qd) as U. cbv zeta in U. fold (jcalc O M w i q qd) in U. fold w1 in U.
+    destruct U as (UXb & Uv & _).
+    assert (HXl : gXl O w1 i = XlF O M q i).
+    { apply (@jcalc_Xl T O FL); [destruct Hlen as (L & _); rewrite L; exact Hn | apply (wf_kind M W); auto]. }
+    destruct (jcalc_full_vals O M w i q qd (nbodies M) Hlen Hn (proj1 (Hg i (conj Hi Hn))) (proj2 (Hg i (conj Hi Hn))))
+      as (_ & HvJ & _). fold w1 in HvJ.
+    assert (Hg1 : forall j, 0 < j < nbodies M -> WsInvJ O M w1 j /\ kind_dof M w1 j).
+    { intros j Hj. apply (jcalc_full_inv O M w i q qd (nbodies M)); auto; intros j' Hj'; apply Hg; exact Hj'. }
+    split; [|split].
+    - split.
+      + unfold ws_len in *; cbn. rewrite !upd_length. decompose [and] Hlen1. repeat split; assumption.
+      + intros j Hj. destruct (Hg1 j Hj) as [A B]. split.
+        * revert A. apply WsInvJ_ext; reflexivity.
+        * revert B. apply kind_dof_ext. reflexivity.
+    - cbn. rewrite UXb. exact HXb.
+    - intros j [Hj0 Hj]. unfold gv; cbn.
+      destruct (Nat.eq_dec j i) as [->|Hne].
+      + rewrite nth_upd_eq by (destruct Hlen1 as (_ & _ & L & _); rewrite L; exact Hn).
+        rewrite (vF_unfold M q qd i W (conj Hi Hn)). rewrite HXl, HvJ.
+        destruct (Nat.eqb (getlam M i) 0) eqn:E; [reflexivity|]. apply Nat.eqb_neq in E.
+        f_equal. f_equal. unfold gv. rewrite Uv. apply Hinv.
+        pose proof (wf_parent M W i (conj Hi Hn)). unfold getlam in *. lia.
+      + rewrite nth_upd_neq by auto. rewrite Uv. apply Hinv. lia.
+  Qed.
+
+  Theorem ukc_qd_spec (M : Model) (w : WS) q qd : WF M -> Good M w ->
+    let w' := ukc_qd O M w q qd in
+    Good M w' /\ wXb w' = wXb w /\ forall i, 0 < i < nbodies M -> gv O w' i = vF M q qd i.
+  Proof.
+    intros W Hg. cbv zeta. rewrite ukc_qd_is_fold. unfold body_range.
+    pose proof (wf_pos M W) as Hpos.
+    assert (K : InvV M q qd w (fold_left (ukc_qd_step M q qd) (iota 1 (Nat.pred (nbodies M))) w) (1 + Nat.pred (nbodies M))).
+    { apply (fold_iota_inv (ukc_qd_step M q qd) (InvV M q qd w)).
+      - split; [exact Hg|split; [reflexivity|]]. intros j Hj. lia.
+      - intros w' i Hi HI. apply ukc_qd_step_inv; auto. lia. }
+    replace (1 + Nat.pred (nbodies M)) with (nbodies M) in K by lia. exact K.
+  Qed.
+
+  (* the Q-pass also keeps the invariant (jcalc with zero velocity) *)
+  Lemma ukc_q_good (M : Model) (w : WS) q : WF M -> Good M w -> Good M (ukc_q O M w q).
+  Proof.
+    intros W Hg. rewrite ukc_q_is_fold. unfold body_range.
+    pose proof (wf_pos M W) as Hpos.
+    assert (K : (fun w (_ : nat) => Good M w) (fold_left (ukc_q_step O M q) (iota 1 (Nat.pred (nbodies M))) w) (1 + Nat.pred (nbodies M))).
+    { apply (fold_iota_inv (ukc_q_step O M q) (fun w _ => Good M w)); [exact Hg|].
+      intros w' i Hi [Hlen Hg']. unfold ukc_q_step.
+      set (w1 := jcalc O M w' i q (vzeros t0 (q_size M))).
+      assert (Hlen1 : ws_len w1 (nbodies M)) by (apply jcalc_len; exact Hlen).
+      assert (Hg1 : forall j, 0 < j < nbodies M -> WsInvJ O M w1 j /\ kind_dof M w1 j).
+      { intros j Hj. apply (jcalc_full_inv O M w' i q _ (nbodies M)); auto; try lia; intros j' Hj'; apply Hg'; exact Hj'. }
+      split.
+      - unfold ws_len in *; cbn. rewrite !upd_length. decompose [and] Hlen1. repeat split; assumption.
+      - intros j Hj. destruct (Hg1 j Hj) as [A B]. split.
+        + revert A. apply WsInvJ_ext; reflexivity.
+        + revert B. apply kind_dof_ext. reflexivity. }
+    exact K.
+  Qed.
+
+  (* point velocity: a function of the model, the state and the point only (C13), and linear in qd through vF *)
+  Theorem point_velocity_ws_independent (M : Model) (w1 w2 : WS) q qd (id : N) pt : WF M ->
+    Good M w1 -> Good M w2 -> (id < fixed_disc)%N -> 0 < N.to_nat id < nbodies M ->
+    snd (calc_point_velocity6 O M w1 q qd id pt true) = snd (calc_point_velocity6 O M w2 q qd id pt true).
+  Proof.
+    intros W G1 G2 Hid Hi.
+    assert (Z : forall w, Good M w -> Good M (zero_v0 O w)).
+    { intros w [L G]. split.
+      - unfold ws_len, zero_v0 in *; cbn. rewrite upd_length. exact L.
+      - intros j Hj. destruct (G j Hj) as [A B]. split; [revert A; apply WsInvJ_ext; reflexivity | revert B; apply kind_dof_ext; reflexivity]. }
+    unfold calc_point_velocity6. cbn [snd].
+    unfold point_velocity6_nk, ref_point.
+    assert (Hf : is_fixed_id M id = false).
+    { unfold is_fixed_id. apply N.leb_gt in Hid. rewrite Hid. reflexivity. }
+    rewrite Hf. unfold point_X, world_orient.
+    replace (N.leb fixed_disc (N.of_nat (N.to_nat id))) with false by (symmetry; apply N.leb_gt; lia).
+    rewrite !N2Nat.id.
+    pose proof (ukc_q_good M _ q W (Z _ G1)) as Gq1. pose proof (ukc_q_good M _ q W (Z _ G2)) as Gq2.
+    destruct (ukc_qd_spec M _ q qd W Gq1) as (_ & X1 & V1). destruct (ukc_qd_spec M _ q qd W Gq2) as (_ & X2 & V2).
+    rewrite (V1 _ Hi), (V2 _ Hi). unfold gXb. rewrite X1, X2.
+    fold (gXb O (ukc_q O M (zero_v0 O w1) q) (N.to_nat id)). fold (gXb O (ukc_q O M (zero_v0 O w2) q) (N.to_nat id)).
+    rewrite (ukc_q_ws_independent O M (zero_v0 O w1) (zero_v0 O w2) q _ W (proj1 (Z _ G1)) (proj1 (Z _ G2)) Hi).
+    reflexivity.
+  Qed.
+End Vel.
